@@ -283,7 +283,7 @@ func addLineText(p *lineParser) {
 
 	switch k := p.ContainerKind(); {
 	case blockRules[k].acceptsLines:
-		if p.i < len(p.line) && p.line[p.i] == '\t' && p.tabRemaining > 0 && p.tabRemaining < tabStopSize {
+		if p.i < len(p.line) && p.line[p.i] == '\t' && p.tabRemaining > 0 && p.tabPartial {
 			p.container.inlineChildren = append(p.container.inlineChildren, &Inline{
 				kind:   IndentKind,
 				indent: int(p.tabRemaining),
